@@ -50,6 +50,7 @@ type modLoc struct {
 	t    Term
 	sort Sort // for addr: sort of stored value
 	idx  int
+	gkey string // ghost state component
 	// fieldsof condition
 	condVar string
 	condTy  types.Type
@@ -120,6 +121,7 @@ type FuncVC struct {
 	emitted       map[string]bool
 	dryGlobals    map[string]bool
 	pendingClosed []pendingClosed
+	usedInvPkgs   map[string]bool
 	safety        bool
 	entryFacts    []Term
 }
@@ -346,10 +348,7 @@ func (vc *FuncVC) load(st *State, addr Term, s Sort) Term {
 		_, es := splitArraySort(s)
 		if vc.tc.StructInfo(es) == nil && !isArraySort(es) {
 			key := vc.heapComp(es)
-			fn := "arrload_" + mangle(string(es))
-			vc.tc.Declare(fn, fmt.Sprintf("(declare-fun %s (%s Ref) %s)\n(assert (forall ((h %s) (p Ref) (i Int)) (! (= (select (%s h p) i) (select h (elem p i))) :pattern ((select (%s h p) i)))))",
-				fn, ArraySort(SRef, es), s, ArraySort(SRef, es), fn, fn))
-			return App(s, fn, vc.cur(st, key), addr)
+			return App(s, vc.arrloadFn(es), vc.cur(st, key), addr)
 		}
 		return vc.freshConst("arrval", s)
 	}
@@ -373,8 +372,10 @@ func (vc *FuncVC) store(st *State, addr Term, v Term) {
 			nw := vc.newVersion(st, key)
 			r := vc.boundVar("r", SRef)
 			i := vc.boundVar("i", SInt)
-			vc.emit("(assert %s)", Forall([]Term{r}, Implies(Not(Eq(App(SRef, "elem_base", r), addr)), Eq(Select(nw, r, es), Select(old, r, es))), Select(nw, r, es)).S)
+			vc.emit("(assert %s)", Forall([]Term{r}, Implies(Not(And(Eq(App(SInt, "rkind", r), IntLit(2)), Eq(App(SRef, "elem_base", r), addr))), Eq(Select(nw, r, es), Select(old, r, es))), Select(nw, r, es)).S)
 			vc.emit("(assert %s)", Forall([]Term{i}, Eq(Select(nw, vc.elemAddr(addr, i), es), Select(v, i, es)), Select(nw, vc.elemAddr(addr, i), es)).S)
+			// the array now held at addr IS v (pointwise equal for every index, stated once as an equation)
+			vc.emit("(assert (= %s %s))", App(s, vc.arrloadFn(es), nw, addr).S, v.S)
 			return
 		}
 		vc.note("store of array-of-aggregate value abstracted")
@@ -766,6 +767,17 @@ func (vc *FuncVC) modLocOf(x ast.Expr, env *Env, c *Clause) ([]modLoc, error) {
 			return []modLoc{loc}, nil
 		}
 		if fn, ok := identName(n.Fun); ok && len(n.Args) == 1 {
+			if pf := vc.S.Pure[fn]; pf != nil && pf.State {
+				key, _, _ := vc.ghostStateComp(pf)
+				if an, ok := identName(n.Args[0]); ok && an == "any" {
+					return []modLoc{{kind: "gstate-all", gkey: key}}, nil
+				}
+				v, err := e.Eval(n.Args[0])
+				if err != nil {
+					return nil, err
+				}
+				return []modLoc{{kind: "gstate", t: v.T, gkey: key}}, nil
+			}
 			switch fn {
 			case "elems":
 				v, err := e.Eval(n.Args[0])
@@ -793,4 +805,22 @@ func (vc *FuncVC) modLocOf(x ast.Expr, env *Env, c *Clause) ([]modLoc, error) {
 		return []modLoc{{kind: "tree", t: a}}, nil
 	}
 	return []modLoc{{kind: "addr", t: a, sort: s}}, nil
+}
+
+// arrloadFn declares (once) the function reading a whole Go array value out of an element heap.
+func (vc *FuncVC) arrloadFn(es Sort) string {
+	fn := "arrload_" + mangle(string(es))
+	s := ArraySort(SInt, es)
+	vc.tc.Declare(fn, fmt.Sprintf("(declare-fun %s (%s Ref) %s)\n(assert (forall ((h %s) (p Ref) (i Int)) (! (= (select (%s h p) i) (select h (elem p i))) :pattern ((select (%s h p) i)))))",
+		fn, ArraySort(SRef, es), s, ArraySort(SRef, es), fn, fn))
+	return fn
+}
+
+// ghostStateComp registers the state component behind a `ghost state` declaration.
+func (vc *FuncVC) ghostStateComp(pf *PureFunc) (string, Sort, Sort) {
+	ks := vc.tc.SortOf(pf.PTypes[0])
+	vs := vc.tc.SortOf(pf.RType)
+	key := "GS:" + pf.Name
+	vc.ensureComp(key, ArraySort(ks, vs))
+	return key, ks, vs
 }
